@@ -57,3 +57,10 @@ Definition chk_sts (c : bytes * Z * option (Z * Z)) : bool :=
   | None, None => true
   | _, _ => false
   end.
+
+(* --- helpers.Retry: (attempts, number of leading failures), observed calls and err == nil --- *)
+From Verif Require Import Model.Retry.
+Definition chk_helper_retry (c : nat * nat * (nat * bool)) : bool :=
+  let '(attempts, fails, (n, ok)) := c in
+  let '(n', ok') := helper_retry (answers_of fails) attempts 0 in
+  Nat.eqb n n' && Bool.eqb ok ok'.
